@@ -15,7 +15,7 @@ CONST_TABLE = [
     ("BACKPRESSURE_BOUNDARY", "src/substream/mod.rs", r"const BACKPRESSURE_BOUNDARY: usize = ([^;]+);", 65536),
 ]
 MANIFEST = {
-    "text": "Lean 4 theorems about an executable model of the notification data path (bounded sync/async queues, the "
+    "text": "(coverage round: + sink clones obtained with notification_sink() - sink_send_after_close_fails: after close_connection has reported closed, a send through a clone of that stream's sink answers NoConnection/PeerDoesntExist and changes nothing, for every later history incl. a new stream; sink_clone_live; the handle's own async send polled once) Lean 4 theorems about an executable model of the notification data path (bounded sync/async queues, the "
             "Connection task's poll loop: take the parked notification or either non-empty queue, poll_ready with the "
             "substream's back-pressure boundary, park at most one notification, start_send, flush; the start() loop that "
             "re-enters poll_next after every inbound notification; the slot on the shared inbound channel reserved before "
